@@ -101,7 +101,10 @@ theorem Inv_step (q : Quirks) (hx : q.execAtomic = false) (s : State) (e : Event
       simp only [hcr, if_true] at hok
       exact Inv_runBatch q hx now c _ _ (Inv_setConn_tx hI c _ (fun _ => ⟨rfl, rfl, rfl⟩))
         (Open_setConn_tx (Open_of_canRun hcr) c _ (fun _ => ⟨rfl, rfl, rfl⟩)) hok
-    · exact hI
+    · next hcr =>
+      simp only [hcr, Bool.false_eq_true, if_false, Bool.not_eq_true'] at hok
+      simp only [hok, Bool.false_eq_true, if_false]
+      exact hI
   | timeouts now => exact Inv_iter (Inv_expireOne now) _ _ hI
   | hangup c =>
     simp only [step]
